@@ -1139,6 +1139,8 @@ def astype(x, ty):
             return int(x)
         return x
     if ty in ("str", str):
+        if isinstance(x, int) and not isinstance(x, bool):
+            return str(x)
         return x if isinstance(x, str) else FStr([FVal(x)])
     if ty in ("bool", bool):
         return _ai().truth(x)
@@ -1267,8 +1269,18 @@ def vec_method(it, obj, name, args, kw):
                 return kw.get("na", None)
             raise Undecided(".str.match on abstract value")
         return lift1(mt, obj)
-    if name in ("startswith", "endswith", "lower", "upper", "strip", "rstrip", "len", "contains"):
+    if name in ("startswith", "endswith", "lower", "upper", "strip", "rstrip", "lstrip", "len", "contains", "isdigit", "isnumeric", "isalpha", "title", "capitalize"):
         def sm(x):
+            if isinstance(x, bool):
+                raise Undecided(f".str.{name} on a boolean")
+            if isinstance(x, int) and name in ("isdigit", "isnumeric", "isalpha"):
+                return getattr(str(x), name)()          # after .astype(str): the decimal digits of an integer
+            if isinstance(x, FStr) and len(x.parts) == 1 and isinstance(x.parts[0], FVal):
+                x = x.parts[0].v
+                if isinstance(x, int) and not isinstance(x, bool) and name in ("isdigit", "isnumeric", "isalpha"):
+                    return getattr(str(x), name)()
+            if isinstance(x, Term) and x.integer and x.lo >= 0 and name in ("isdigit", "isnumeric"):
+                return True                              # a non-negative integer prints as digits only
             if isinstance(x, str):
                 if name == "len":
                     return len(x)
@@ -1415,7 +1427,10 @@ def df_method(it, obj, name, args, kw):
         fields = [c for c in obj.cols if not c.startswith("__")]
         idx = kw.get("index", True)
         rows = []
+        keep = obj.cols.get("__keep__")
         for i in range(obj.n):
+            if keep is not None and keep.v[i] is False:
+                continue                    # a row class that a boolean selection definitely dropped is not iterated
             d = {c: obj.cols[c].v[i] for c in fields}
             if idx:
                 rows.append(Row(dict({"Index": i}, **d), ["Index"] + fields))
